@@ -168,6 +168,49 @@ def run(tier="quick", replay=None):
                 R.viol("R18.b.skip", key, sk["site"],
                        "recorder %s returns Ok without reading/recording on an edge that is not the pseudo-file "
                        "test (%s)" % (f.path, sk["what"]), fn=f.path)
+    # wrappers: a function without a read of its own that calls a recorder with its own parameters on every success path
+    # (e.g. a cycle guard wrapped around the real worker) records exactly what the recorder records
+    def param_passthrough(w, wfl, ct):
+        for a in ct["args"][1:]:
+            l = op_local(a)
+            if l is None:
+                continue
+            src = wfl.back_pure([l])
+            if not any(1 <= x <= w.argc for x in src):
+                return False
+        return True
+    changed = True
+    rounds = 0
+    while changed and rounds < 3:
+        changed = False
+        rounds += 1
+        for w in prog.fns.values():
+            if not w.root.startswith("compiler::preprocessor::") or w.kind == "Closure" or w.path in recorders:
+                continue
+            if any(is_read(t) for _, t in w.calls()):
+                continue
+            rc_calls = [(bb, t) for bb, t in w.calls() if callee_of(t) in recorders]
+            if len(rc_calls) != 1:
+                continue
+            cbb, ct = rc_calls[0]
+            wfl = Flow(w)
+            oks = ok_assign_blocks(w)
+            # the wrapper's result is the recorder's result, or every Ok return comes after the call
+            through = must_pass(w, 0, [b for b in w.return_blocks()], [cbb]) or all(must_pass(w, 0, [b], [cbb]) for b in oks)
+            err_only_before = True
+            from paths import err_assign_blocks as _errb
+            errb = set(_errb(w))
+            for rb in w.return_blocks():
+                if not must_pass(w, 0, [rb], [cbb]):
+                    # a return that bypasses the recorder must be an error return
+                    if not (set(w.reachable(0, avoid=[cbb])) & errb):
+                        err_only_before = False
+            if param_passthrough(w, wfl, ct) and (through or err_only_before) and not (set(oks) & set(w.reachable(0, avoid=[cbb]))):
+                inner = recorders[callee_of(ct)]
+                recorders[w.path] = {"skips": inner["skips"], "vec_params": inner.get("vec_params", set()), "site": w.loc(cbb), "wraps": callee_of(ct)}
+                R.ob("R18.b", "R18.b|%s|wrapper-of-recorder" % w.path, w.loc(cbb),
+                     "auto: records through %s (called with its own parameters before every Ok return)" % callee_of(ct), fn=w.path)
+                changed = True
     R.floor("R18.b", "recorder functions", len(recorders), 1)
 
     # invariant used for conditional skips: IncludeDesc.kind per IncludeType variant
@@ -177,6 +220,23 @@ def run(tier="quick", replay=None):
     for f, bb, t in plain_readers:
         # every caller must call a recorder on the same description first
         callers = [(g, cbb, ct) for g, cbb, ct in prog.call_sites(lambda c: c == f.path) if g.path != f.path]
+        # a caller that merely forwards its own parameters (a wrapper around the reader) passes the obligation on to ITS callers
+        for _lift in range(3):
+            lifted = []
+            again = False
+            for g, cbb, ct in callers:
+                gfl0 = Flow(g)
+                has_rec = any(callee_of(rt) in recorders and g.dominates(rbb, cbb) and rbb != cbb for rbb, rt in g.calls())
+                if not has_rec and g.kind != "Closure" and not any(is_read(t2) for _, t2 in g.calls()) and param_passthrough(g, gfl0, ct):
+                    up = [(g2, b2, t2) for g2, b2, t2 in prog.call_sites(lambda c, gp=g.path: c == gp) if g2.path != g.path]
+                    if up:
+                        lifted.extend(up)
+                        again = True
+                        continue
+                lifted.append((g, cbb, ct))
+            callers = lifted
+            if not again:
+                break
         key = "R18.b|%s|unrecorded-read" % f.path
         if not callers:
             R.viol("R18.b", key, f.loc(bb), "%s reads a file without recording it and has no caller that records" % f.path, fn=f.path)
